@@ -9,10 +9,12 @@ PARSE_RULE = ("statements generated from the Lean grammar AST (Driver/GenStmt.le
 TAB_RULE = ("statements from the grammar AST (simple, combined, nested, pair-expanded) x option sets (IG Extended/Core, annotations, "
             "output type); the model's `Tab.exportAll` + `TabPrint.output` must equal the implementation's table byte for byte, and "
             "independent table oracles (Driver/TabOracle.lean) re-derive rows, linkage cells and id resolution from the parsed tree "
-            "and judge the implementation's table directly. Non-trivial: distinct op+arguments with more than one row or a nested group")
+            "and judge the implementation's table directly; for statements of the supported class the table must in addition equal the "
+            "model's table of the documented meaning (`denoteLinked`), so that a mis-parse cannot hide behind a faithful export; every fourth "
+            "table is also exported to a file that already holds a longer stale export. Non-trivial: distinct op+arguments")
 VIS_RULE = ("statements from the grammar AST x all 32 combinations of the five display options; the model's `Vis.visTop` serialised by "
-            "`Json.ser` must equal PrintTree's output byte for byte, and the output must parse as JSON (driver's own RFC 8259 parser). "
-            "Non-trivial: distinct op+arguments")
+            "`Json.ser` must equal PrintTree's output byte for byte (model evaluated on the implementation's own parse and, for the supported "
+            "class, on the documented meaning), and the output must parse as JSON. Non-trivial: distinct op+arguments")
 WEB_RULE = ("form submissions generated from the field/option tables (every checkbox, selector, URL parameter, valid and invalid "
             "values) posted in-process to the real handlers; the page is reduced to (status, embedded output, echoed fields, error code, "
             "raw occurrences of user text) and compared with `Web.decode` applied to the same request plus the core conversion's output")
